@@ -13,7 +13,7 @@ SI = "xstate_statemachine.sync_interpreter:SyncInterpreter."
 A = "self._active_state_nodes"
 Q, ACC, REM = "self._event_queue", "self.g_accepted", "self.g_removed"
 STATE = [A, "self._history", "self.context", "self.status", "self.output", "self.error", "self._action_depth",
-         "self._after_events", "self._after_threads", "self._pending_send_cancels", "self._scheduled_sends", "self._actors"]
+         "self._after_events", "self._after_threads", "self._pending_send_cancels", "self._scheduled_sends", "self._actors", "self._raise_depth"]
 
 
 def _dict_same(d):
@@ -23,7 +23,7 @@ def _dict_same(d):
 # nothing but the queue / accepted history moved (used for the deferred, re-entrant calls)
 SAME_REST = " and ".join(f"same({f}, old({f}))" for f in [A, "self.status", "self.context", "self.output", "self.error", "self._action_depth", "self._is_processing",
                                                           "self.g_removed", "self.g_ndiscarded", "self._history", "self._after_events", "self._after_threads",
-                                                          "self._scheduled_sends", "self._actors", "self._pending_send_cancels"]) + \
+                                                          "self._scheduled_sends", "self._actors", "self._pending_send_cancels", "self._raise_depth"]) + \
     " and forall[Flag](lambda f: f.is_set == old(f.is_set)) and forall[Trans](lambda t: t.target_str == old(t.target_str))"
 
 
@@ -146,7 +146,7 @@ def register(w):
 
 
     ENTER_MODS = [A, "self.context", "self.status", "self.output", "self.error", "self._action_depth",
-                  "self._after_events", "self._after_threads", "self._pending_send_cancels", "self._scheduled_sends", "self._actors", Q, ACC, "Flag.is_set"]
+                  "self._after_events", "self._after_threads", "self._pending_send_cancels", "self._scheduled_sends", "self._actors", "self._raise_depth", Q, ACC, "Flag.is_set"]
     APP_E = f"appended_only(old({Q}), old({ACC}), {Q}, {ACC})"
     LISTED_NN = "forall[int](lambda i: implies(0 <= i and i < len(states_to_enter), states_to_enter[i] != None))"
     E1 = f"forall[Node](lambda n: implies(n in old({A}), n in {A}))"
@@ -268,6 +268,42 @@ def register(w):
         c.ens("final_limit_hit or final_none_left", label="ghost:settles-until-stable-or-the-microstep-bound")
         c.loop(0, inv=[*KEEP_S, "self._is_processing", "iterations >= 0", "limit == root.max_iterations"],
                decreases="ite(limit - iterations + 1 > 0, limit - iterations + 1, 0)")
+
+    @w.contract(AI + "_process_event_and_transient_transitions", props=["C04", "C01", "C05"])
+    def _(c):
+        # the asyncio macrostep: one event, then always-transitions until stable
+        c.no_runtime = True
+        c.param("event", Ev)
+        c.mod(*STATE, Q, ACC, "Flag.is_set", "Trans.target_str")
+        c.req(f"legal({A})", "event != None", "ghost:self._is_processing", f"wf_state({A}, self._history)", "root.max_iterations >= 0")
+        KEEP_M = [f"legal({A})", "status_reach(old(self.status), self.status)", f"wf_state({A}, self._history)"]
+        c.ens(*KEEP_M)
+        c.ens(f"appended_only(old({Q}), old({ACC}), {Q}, {ACC})", label="ghost:queue-append-only")
+        c.may_raise("Exception", ensures=[*KEEP_M, f"ghost:appended_only(old({Q}), old({ACC}), {Q}, {ACC})"])
+
+    @w.contract(AI + "_run_event_loop", props=["C04", "C07", "C01", "C05"])
+    def _(c):
+        # the asyncio engine's consumer task.  Partial correctness: it is a server loop (it ends when the interpreter stops
+        # running or the task is cancelled), so no termination measure is claimed.
+        c.no_runtime = True
+        c.nonterminating = "server loop: waits for events while the interpreter is running"
+        c.mod(*STATE, Q, ACC, REM, "Flag.is_set", "Trans.target_str", "self._processing", "self._raise_depth", "self._is_processing")
+        c.req(f"queue_inv({Q}, {ACC}, {REM})", f"legal({A})", f"wf_state({A}, self._history)", "root.max_iterations >= 0", "not self._is_processing")
+        # for the asyncio engine the model flag `_is_processing` follows the engine's own `_processing` field
+        c.after("self._processing = True", "self._is_processing = True")
+        c.after("self._processing = False", "self._is_processing = False")
+        c.after("event = await self._event_queue.get()", f"{REM} = append({REM}, event)", f"assert queue_inv({Q}, {ACC}, {REM})")
+        c.after("await self._process_event_and_transient_transitions(event)", f"assert queue_inv({Q}, {ACC}, {REM})")
+        INV = [f"queue_inv({Q}, {ACC}, {REM})", f"legal({A})", f"wf_state({A}, self._history)", "status_reach(old(self.status), self.status)",
+               "not self._is_processing", "limit == root.max_iterations"]
+        c.ens(*INV[:4])
+        c.ens("self.status != 'running'", label="the-loop-ends-only-when-the-interpreter-no-longer-runs")
+        # C07: an event whose processing fails does not end the loop - nothing but cancellation or a fatal BaseException gets out
+        # (no `may_raise("Exception")`: an Exception leaving this function is a failed obligation; fatal non-Exception
+        # BaseExceptions - KeyboardInterrupt, SystemExit - are outside the model)
+        c.may_raise("CancelledError")
+        c.loop(0, inv=INV)
+        c.loop(1, inv=[*INV, "event != None"])
 
     @w.contract(AI + "start", props=["C14", "C05", "C01"])
     def _(c):
